@@ -151,13 +151,19 @@ class WrappersDriver:
                 deco = asynchronous(executor=self.pool)
 
             class Holder:
-                """receivers that are ==-equal and hash-equal but distinct objects (value objects)"""
+                """receivers that are ==-equal and hash-equal but distinct objects (value objects), and falsy"""
 
                 def __eq__(self, other):
                     return isinstance(other, Holder)
 
                 def __hash__(self):
                     return 11
+
+                def __bool__(self):         # ... and falsy (an empty collection-like object is an ordinary receiver)
+                    return False
+
+                def __len__(self):
+                    return 0
 
                 @deco
                 def m(self, a, b=2, *args, **kwargs):
